@@ -14,6 +14,11 @@
              The signature unit also demands that the side condition of theorem C18_rename (renaming_ok, computed on
              the model's reading) holds whenever the oracle treats the mapping as admissible, so that every judged
              case lies inside the proved statement.
+   A case may carry further mappings (r_more) passed to further calls on the same action - the same mapping again, its
+   inverse (round trip), a mapping chosen for the renamed action; the observables are then those after the LAST call,
+   the model is the fold of change_signature (Proofs.C18_Seq.cs_seq), the oracle the fold of Spec.Rename.ren_action,
+   admissibility is demanded of every step on the action as renamed so far (admissible_seqb), and the side condition
+   checked is the one of theorem C18_rename_seq (ok_seq).
    Verdicts per case: signature, text, then (applicability, successor) per probe. *)
 From Coq Require Import List Ascii String Bool Arith PrimFloat.
 From Verif Require Import Base.Result Base.Str Base.Sexp Base.PyDict Base.Float
